@@ -22,8 +22,8 @@ M = [
   "let dict_size = if dict_size_provided < 0x1000 {\n            0x1000",
   "let dict_size = if dict_size_provided < 0x100 {\n            0x100"),
  ("c02_reset_keeps_rep", "C02", "src/decode/lzma.rs",
-  "        self.state = 0;\n        self.rep = [0; 4];\n        self.len_decoder = LenDecoder::new();\n        self.rep_len_decoder = LenDecoder::new();\n    }\n\n    pub fn set_unpacked_size",
-  "        self.state = 0;\n        self.len_decoder = LenDecoder::new();\n        self.rep_len_decoder = LenDecoder::new();\n    }\n\n    pub fn set_unpacked_size"),
+  "        self.state = 0;\n        self.rep = [0; 4];\n        self.len_decoder = LenDecoder::new();",
+  "        self.state = 0;\n        self.len_decoder = LenDecoder::new();"),
  ("c02_state_reset_also_on_class0", "C02", "src/decode/lzma2.rs",
   "            0 => {\n                reset_dict = false;\n                reset_state = false;",
   "            0 => {\n                reset_dict = false;\n                reset_state = true;"),
@@ -69,9 +69,12 @@ M = [
  ("c08_provided_none_falls_back_to_header", "C08", "src/decode/lzma.rs",
   "                input\n                    .read_u64::<LittleEndian>()\n                    .map_err(error::Error::HeaderTooShort)?;\n                x",
   "                let h = input\n                    .read_u64::<LittleEndian>()\n                    .map_err(error::Error::HeaderTooShort)?;\n                x.or(if h == u64::MAX { None } else { Some(h) })"),
+ ("c08_end_marker_no_longer_required", "C08", "src/decode/lzma.rs",
+  "                if mode == ProcessingMode::Finish && !self.end_marker_seen {",
+  "                if mode == ProcessingMode::Finish && !self.end_marker_seen && self.partial_input_buf.position() > 0 {"),
  ("c08_marker_accepted_with_pending_input", "C08", "src/decode/lzma.rs",
-  "                    if rangecoder.is_finished_ok()? {\n                        return Ok(ProcessingStatus::Finished);\n                    }",
-  "                    if rangecoder.code == 0 {\n                        return Ok(ProcessingStatus::Finished);\n                    }"),
+  "                    if rangecoder.is_finished_ok()? {\n                        self.end_marker_seen = true;",
+  "                    if rangecoder.code == 0 {\n                        self.end_marker_seen = true;"),
  ("c09_circular_len_guard_removed", "C09", "src/decode/lzbuffer.rs",
   "        if dist > self.len {\n            return Err(error::Error::LzmaError(format!(\n                \"LZ distance {} is beyond output size {}\",",
   "        if dist > self.len + self.dict_size {\n            return Err(error::Error::LzmaError(format!(\n                \"LZ distance {} is beyond output size {}\","),
